@@ -1,4 +1,5 @@
 """C14 — size rotation: statements whole, ordered, bounded (DESIGN §4 C14)."""
+import re
 from qlib import (AnalysisBroken, strip, isnode, walk, is_call, norm_cmp, var_ref, is_null, const_val, short, call_obj,
                   expr_key, field_name, is_this_field, var_name)
 from rules.common import (core_and_neg, tnode, other, cpos, npos, branches_on_call, in_subtree, need_some, straight_after,
@@ -39,6 +40,7 @@ def run(ctx):
     for f in facts.need(RS + "_clean_and_recover_files", "A", floor=2):
         recover(ctx, facts, f)
     stream_write(ctx, facts)
+    append_helpers(ctx, facts)
     config_roundtrip(ctx, facts)
     # the size check and the rename act on flushed bytes: every write marks the stream dirty, flush_sink is skipped only when clean (= C06.R5)
     from rules import c06
@@ -721,6 +723,12 @@ def recover(ctx, facts, f):
     ctx.ob("C14.R5j", site + ":registered-entry-names-the-file", okj,
            "every recovered entry is registered under the directory plus the base file name cut out of the entry's name (the name the "
            "rename chain will later rebuild)", fn=f)
+    # R5l: the index an entry is registered with is the one in its name: parsed from the name (stoul of the piece cut out), or 0 for a
+    # name that carries no index
+    badl = [r_["loc"] for r_ in regs if len(r_["args"]) == 3 and not (const_val(r_["args"][1]) == 0 or any(is_call(y, r"^std::stoul$") for y in walk(r_["args"][1])))]
+    ctx.ob("C14.R5l", site + ":registered-index-is-the-name's", len(regs) >= 3 and not badl,
+           "each of the %d registrations passes as index either the number parsed out of the file's name or 0 when the name has none (other: %s)"
+           % (len(regs), badl), fn=f)
     # R5k: the 'this suffix is a date' test admits the 8 characters of %Y%m%d
     fmt_len = None
     for c in f.calls(r"::format_datetime_string$"):
@@ -747,9 +755,14 @@ def recover(ctx, facts, f):
         ok = bool(rc) and bool(op) and bool(fr) and all(cg.dominates(rc, p) for p in npos(c, op)) and all(cg.dominates(npos(c, op), p) for p in fr) and \
             all(any(is_call(x, r"::open_mode$") for x in walk(o["args"][1])) for o in op)
         sz = npos(c, [n for n in c.walk() if n["k"] == "BinaryOperator" and n["op"] == "=" and is_this_field(n["lhs"], "_file_size") and any(is_call(x, r"::_get_file_size$") for x in walk(n["rhs"]))])
+        # the entry of the file being written describes that file: its own name, index 0 (no index suffix), no date
+        frc = [x for x in c.calls(r"std::deque<.*>::(emplace_front|push_front)") if is_this_field(call_obj(x), "_created_files")]
+        ok = ok and all(len(x["args"]) == 3 and any(x2["k"] == "MemberExpr" and x2.get("mname") == "_filename" for x2 in walk(x["args"][0])) and
+                        const_val(x["args"][1]) == 0 for x in frc)
         ctx.ob("C14.R5d", "RotatingSink<%s>::ctor:recover-open-register" % inst(f), ok and bool(sz),
-               "start-up recovers the existing files, then opens the base file in the configured mode, registers it as newest and takes "
-               "its current size (an appended-to file counts towards the limit)", fn=c)
+               "start-up recovers the existing files, then opens the base file in the configured mode, registers it as newest — under its "
+               "own name with index 0, the name it is later renamed from — and takes its current size (an appended-to file counts "
+               "towards the limit)", fn=c)
 
 
 def config_roundtrip(ctx, facts):
@@ -801,3 +814,89 @@ def config_roundtrip(ctx, facts):
                    "the field takes the caller's argument itself on every path that does not throw, and the getter of the same name returns "
                    "it (%s)" % ("; ".join(bad) or "ok"), fn=f)
     ctx.floor("C14.R7", "config fields assigned from a setter's parameter", n, 7)
+
+
+def append_helpers(ctx, facts):
+    """R4g: the two helpers _get_filename builds a name from. _append_index_to_filename returns the name unchanged exactly on 'index is
+    0' and otherwise stem + "." + to_string(index) + ext; _append_string_to_filename returns it unchanged exactly on 'text is empty' and
+    otherwise stem + "." + text + ext; stem and ext come from extract_stem_and_extension of the same name, which pairs
+    parent_path()/stem() with extension() (so stem + ext is the name again and the suffix sits in front of the extension)."""
+    def pieces(e):
+        """flatten a chain of string operator+ into its leaf operands"""
+        e = strip(e, casts=True)
+        while isnode(e) and e["k"] in ("CXXConstructExpr", "CXXTemporaryObjectExpr", "CXXFunctionalCastExpr", "InitListExpr") and \
+                len([a for a in (e.get("args") or e.get("c") or []) if not (isnode(a) and a["k"] == "CXXDefaultArgExpr")]) == 1:
+            e = strip((e.get("args") or e.get("c"))[0], casts=True)
+        if isnode(e) and e["k"] == "CXXOperatorCallExpr" and short(e.get("callee") or "").endswith("operator+") and len(e["args"]) == 2:
+            return pieces(e["args"][0]) + pieces(e["args"][1])
+        return [e]
+
+    def kind(x, f, param):
+        if not isnode(x):
+            return "?"
+        if x["k"] == "StringLiteral":
+            return "'%s'" % x.get("str")
+        if is_call(x, r"^std::to_string$"):
+            return "to_string(%s)" % ("index" if var_ref(strip(x["args"][0], casts=True)) == param else "?")
+        if x["k"] == "DeclRefExpr" and x.get("dk") == "Binding":       # auto [a, b] = extract_stem_and_extension(...)
+            m = re.search(r"tuple_element<(\d+)", x.get("ty") or "")
+            return {"0": "stem", "1": "ext"}.get(m.group(1) if m else "", "?")
+        if x["k"] == "MemberExpr" and x.get("mname") in ("first", "second"):
+            return "stem" if x["mname"] == "first" else "ext"
+        if x["k"] == "DeclRefExpr":
+            return "text" if x.get("did") == param else x.get("name", "?").split("::")[-1]
+        return x["k"]
+    n = 0
+    for base, pidx, test in (("_append_index_to_filename", 1, "index"), ("_append_string_to_filename", 1, "text")):
+        for f in facts.need(RS + base, "A", floor=2):
+            n += 1
+            g = f.g
+            name_p, p = f.rec["params"][0]["did"], f.rec["params"][pidx]["did"]
+            same_edges = []
+            for bid, b in g.blocks.items():
+                c = g.term_cond(bid)
+                if c is None:
+                    continue
+                if test == "index":
+                    nc = norm_cmp(c)
+                    if nc and nc[0] in ("==", "!=") and "v%d" % p in (nc[1], nc[2]) and "0" in (nc[1], nc[2]):
+                        same_edges.append((bid, "T" if nc[0] == "==" else "F"))
+                else:
+                    core, neg = core_and_neg(c)
+                    cs_ = strip(core, casts=True)
+                    if is_call(cs_, r"::empty$") and var_ref(call_obj(cs_)) == p:
+                        same_edges.append((bid, "F" if neg else "T"))
+            rets = [(q, g.node_ast(q)) for q in g.return_nodes()]
+            unchanged = [q for (q, r) in rets if var_ref(strip(r.get("val"), casts=True)) == name_p or
+                         (isnode(strip(r.get("val"), casts=True)) and strip(r.get("val"), casts=True)["k"] == "CXXConstructExpr" and
+                          len(strip(r.get("val"), casts=True).get("args") or []) == 1 and var_ref(strip(strip(r.get("val"), casts=True)["args"][0], casts=True)) == name_p)]
+            built = [(q, r) for (q, r) in rets if q not in unchanged]
+            ese = f.calls(r"::extract_stem_and_extension$")
+            from_same = bool(ese) and all(var_ref(strip(c["args"][0], casts=True)) == name_p for c in ese)
+            shape_ok = bool(built)
+            shapes = []
+            for (q, r) in built:
+                ks = [kind(x, f, p) for x in pieces(r.get("val"))]
+                shapes.append(ks)
+                want_mid = "to_string(index)" if test == "index" else "text"
+                shape_ok = shape_ok and len(ks) == 4 and ks[0] == "stem" and ks[1] == "'.'" and ks[2] == want_mid and ks[3] == "ext"
+            pol = bool(same_edges) and bool(unchanged) and not g.exists_path([g.entry_node], unchanged, avoid_edges=same_edges) and \
+                not g.exists_path([g.entry_node], [q for (q, r) in built], avoid_edges=[(b, other(l)) for (b, l) in same_edges])
+            ctx.ob("C14.R4g", "RotatingSink<%s>::%s:suffix-in-front-of-the-extension" % (inst(f), base), pol and shape_ok and from_same,
+                   "the name comes back unchanged exactly on '%s' and is otherwise stem + '.' + %s + ext of that same name (polarity %s, "
+                   "pieces %s, split of the same name %s)" % ("index == 0" if test == "index" else "text is empty", test, pol, shapes, from_same), fn=f)
+    ctx.floor("C14.R4g", "append helpers", n, 4)
+    e = facts.need("quill::FileSink::extract_stem_and_extension", "A")[0]
+    p0 = e.rec["params"][0]["did"]
+    rets = [e.g.node_ast(q) for q in e.g.return_nodes()]
+    ok = len(rets) == 1
+    if ok:
+        mk = [x for x in walk(rets[0].get("val")) if is_call(x, r"^std::make_pair") or (x["k"] in ("CXXConstructExpr", "InitListExpr") and len(x.get("args") or x.get("c") or []) == 2)]
+        ok = bool(mk)
+        if ok:
+            a0, a1 = (mk[0].get("args") or mk[0].get("c"))[:2]
+            c0 = [short(x.get("callee") or "").split("::")[-1] for x in walk(a0) if is_call(x) and var_ref(call_obj(x)) == p0]
+            c1 = [short(x.get("callee") or "").split("::")[-1] for x in walk(a1) if is_call(x) and var_ref(call_obj(x)) == p0]
+            ok = sorted(c0) == ["parent_path", "stem"] and c1 == ["extension"] and any(is_call(x, r"operator/$") for x in walk(a0))
+    ctx.ob("C14.R4h", "FileSink::extract_stem_and_extension:splits-at-the-extension", ok,
+           "first = parent_path() / stem(), second = extension() of the same path: first + second is the path again", fn=e)
